@@ -170,7 +170,7 @@ fn run_seq(args: &Args) -> Shard {
     let mut shard = Shard::new("seq", focus);
     let mut index = from;
     let mut done = 0;
-    while done < count && shard.started.elapsed() < budget {
+    while done < count && shard.started.elapsed() < budget && !rt::tainted() {
         let cfg = seq_cfg(focus, seed, index, clean_only);
         let out = seq::run_history(&cfg);
         let nontrivial = seq_nontrivial(focus, &out);
